@@ -79,6 +79,13 @@ func verifyFunc(p *Program, c *FuncContract) (res *FuncResult) {
 	ex.entryEnv = map[string]*Value{}
 	for i, prm := range fn.Params {
 		hv, facts := ex.havoc(prm.Type(), "p."+prm.Name())
+		// A-SLICE0: a slice parameter is a view starting at offset 0 of its backing
+		// object (sound unless two parameters overlap in one array at different offsets)
+		for ci, c := range ex.L.Of(prm.Type()).Comps {
+			if c.Kind == kSliceOff && c.Lift == 0 {
+				hv.C[ci] = ex.zeroOfSort(c.Sort)
+			}
+		}
 		ex.assume(st, facts)
 		ex.assume(st, ex.belowFrontier(hv))
 		fr.params = append(fr.params, hv)
